@@ -104,7 +104,7 @@ def plain(a):
 
 
 class Region:
-    __slots__ = ('name', 'n', 'T', 'acc', 'wchg', 'assign', 'steps', 'first_read')
+    __slots__ = ('name', 'n', 'T', 'acc', 'wchg', 'assign', 'steps', 'first_read', 'wval', 'wdiff')
 
     def __init__(self, name, n, T):
         self.name = name
@@ -113,6 +113,8 @@ class Region:
         self.acc = {}       # addr -> [rmask, wmask]
         self.wchg = set()   # addrs with at least one value-changing write
         self.first_read = {}  # (thread, addr) -> thread-local step of first load
+        self.wval = {}      # addr -> first value stored in this region
+        self.wdiff = set()  # addrs that received two different values
         self.steps = 0
 
 
@@ -235,6 +237,15 @@ class Sim:
                 e = R.acc[addr] = [0, 0]
             if w:
                 e[1] |= bit
+                if addr not in R.wdiff:
+                    try:
+                        vb = np.asarray(val).tobytes()
+                    except Exception:
+                        vb = None
+                    if addr not in R.wval:
+                        R.wval[addr] = vb
+                    elif R.wval[addr] != vb or vb is None:
+                        R.wdiff.add(addr)
                 if addr not in R.wchg:
                     try:
                         old = _nd_getitem(a, idx)
@@ -259,6 +270,7 @@ class Sim:
             e[w] |= bit
             if w:
                 R.wchg.add(addr)
+                R.wdiff.add(addr)
 
     def oob(self, a, idx, w, exc):
         ev = {'kind': 'oob', 'write': bool(w), 'shape': list(a.shape),
@@ -448,7 +460,9 @@ class Sim:
                 # need a writer and a *different* accessor
                 if wm & (wm - 1) == 0 and (allm & ~wm) == 0:
                     continue
-                benign = addr not in R.wchg
+                # benign: no write changed the stored value, or every writer stored the same value and
+                # nobody read the element (a pure same-value write-write race cannot change any result)
+                benign = addr not in R.wchg or (addr not in R.wdiff and rm == 0)
                 if benign:
                     nben += 1
                     if not include_benign:
@@ -480,7 +494,7 @@ class Sim:
                 allm = rm | wm
                 if allm & (allm - 1) == 0:
                     continue
-                if addr in R.wchg:
+                if addr in R.wchg and not (addr not in R.wdiff and rm == 0):
                     c += 1
                 else:
                     nb += 1
